@@ -1,6 +1,7 @@
 import Artela.Model.Journal
 import Artela.Spec.Solidity
 import Artela.Proofs.BytesKit
+import Artela.Proofs.JournalSafe
 /-
   C09 — journaled values equal the decoded storage content at the moment of journaling.
 
@@ -26,9 +27,9 @@ theorem c09_value_exact (env : JEnv) (tr : Tracer) (slot off width typeId : Word
   have hs : width % U64 = width := Nat.mod_eq_of_lt (by omega)
   have hlo : (32 - off - width) % U64 = 32 - off - width := Nat.mod_eq_of_lt (by omega)
   have hhi : (32 - off) % U64 = 32 - off := Nat.mod_eq_of_lt (by omega)
-  simp only [Journal.exec, u64WithOverflow, ho, hs, hlo, hhi]
-  have c1 : ¬ (decide (off ≥ U64) = true ∨ off > 31) := by simp; omega
-  have c2 : ¬ (decide (width ≥ U64) = true ∨ width > 32 - off) := by simp; omega
+  simp only [Journal.exec, ho, hs, hlo, hhi]
+  have c1 : ¬ (off ≥ U64 ∨ off > 31) := by omega
+  have c2 : ¬ (width ≥ U64 ∨ width > 32 - off) := by omega
   rw [if_neg c1, if_neg c2]
   obtain ⟨hi, hhi⟩ : ∃ hi, 32 = hi + width + off := ⟨32 - off - width, by omega⟩
   have e1 : 32 - off - width = hi := by omega
@@ -54,16 +55,17 @@ theorem c09_value_rejects (env : JEnv) (tr : Tracer) (slot off width typeId : Wo
     (hv : ¬ validPacked off width) :
     ∃ e w, Journal.exec .vv [slot, off, width, typeId] env tr = (.err e, w) := by
   have hU := U64_eq
-  simp only [Journal.exec, u64WithOverflow]
-  by_cases c1 : (decide (off ≥ U64) = true ∨ off % U64 > 31)
-  · exact ⟨_, _, if_pos c1⟩
-  · by_cases c2 : (decide (width ≥ U64) = true ∨ width % U64 > 32 - off % U64)
-    · exact ⟨_, _, (if_neg c1).trans (if_pos c2)⟩
-    · exfalso
+  simp only [Journal.exec]
+  split
+  · exact ⟨_, _, rfl⟩
+  · rename_i c1
+    split
+    · exact ⟨_, _, rfl⟩
+    · rename_i c2
+      exfalso
       apply hv
-      simp only [not_or, decide_eq_true_eq, Nat.not_le, Nat.not_lt, ge_iff_le, gt_iff_lt] at c1 c2
-      have ho2 : off % U64 = off := Nat.mod_eq_of_lt c1.1
-      have hw2 : width % U64 = width := Nat.mod_eq_of_lt c2.1
+      have ho2 : off % U64 = off := Nat.mod_eq_of_lt (by omega)
+      have hw2 : width % U64 = width := Nat.mod_eq_of_lt (by omega)
       rw [ho2] at c1 c2
       rw [hw2] at c2
       unfold validPacked; omega
@@ -109,27 +111,6 @@ theorem goSlice_take (s : Bytes) (cap len : Nat) (h1 : len ≤ s.length) (h2 : s
   rw [List.extract_eq_take_drop]
   simp only [Nat.sub_zero, List.drop_zero]
   exact List.take_append_of_le_length h1
-
-theorem extractStorageLen_odd (w : Nat) (h : w % 2 = 1) (hl : w / 2 < U64) :
-    extractStorageLen w = if w / 2 ≥ 32 then .ok (w / 2) else .error "storage encoding error" := by
-  unfold extractStorageLen
-  simp only [h]
-  by_cases c : w / 2 < 32
-  · simp [c]
-  · have : ¬ (w / 2 ≥ U64) := by omega
-    have c2 : w / 2 ≥ 32 := by omega
-    simp [c, this, c2]
-
-theorem extractStorageLen_even (w : Nat) (h : w % 2 = 0) :
-    extractStorageLen w = if (w % 256) / 2 < 32 then .ok ((w % 256) / 2) else .error "storage encoding error" := by
-  unfold extractStorageLen
-  have e : w / 2 % 128 = w % 256 / 2 := by omega
-  have hU := U64_eq
-  simp only [h, e]
-  by_cases c : w % 256 / 2 < 32
-  · have : ¬ (w % 256 / 2 ≥ U64) := by omega
-    simp [c, this]
-  · simp [c]
 
 theorem take_bytes32_mask (w len : Nat) (hw : w < W256) (hl : len ≤ 31) :
     (bytes32 (w - w % 256)).take len = (beBytes 32 (w % W256)).take len := by
